@@ -515,7 +515,9 @@ pub fn receive_and_compare(
     let mut got = 0usize;
     while link.available() > 0 {
         if !ctx.step() {
-            break;
+            // step budget used up: deliver the rest in large pieces instead of giving up (an
+            // exhausted budget must never look like a lost message)
+            link.mode = SegMode::All;
         }
         let seg = link.next_segment(ctx);
         ctx.sched(1, 1, Ctx::bucket_len(seg.len()));
